@@ -166,3 +166,15 @@ def generate(ctx):
             ctx.count("wrapper:" + state)
             ctx.check("wrapper", {"rel": rel, "op": op, "args": args, "state": state})
         ctx.sample({"pad": n, "cutoff": [m_, r], "scale": k, "channel": c, "rel": rel[:6]})
+    # exhaustive small scope: every relative list of <= 2 (quick) / <= 3 (thorough) messages x a few arguments
+    for rel in G.enum_rel(3 if ctx.thorough else 2):
+        ctx.count("small-scope")
+        for n in (0, 1, 2, 5):
+            ctx.check("pad", {"rel": rel, "n": n})
+            ctx.corr("pad", P.op_pad(n, rel))
+        for k in (1, 2, 3):
+            ctx.check("scale", {"rel": rel, "k": k})
+            ctx.corr("scaleRel", P.op_scaleRel(k, rel))
+        ctx.check("channel", {"rel": rel, "c": 3})
+        ctx.corr("setChannel", P.op_setChannel(3, rel))
+
